@@ -290,6 +290,16 @@ def run_session_case(case: Dict[str, Any], rep_ops: Optional[List[Dict[str, Any]
         try:
             if op["mode"] == "MULTIPROCESSING":
                 st, _v = mp_obs.watchdog(body, HANG_S_KF if in_api_mp_domain else HANG_S)
+                if st != "ok" and not in_api_mp_domain:
+                    # an unreproducible stall: abandon the run (its processes are killed), repeat the operation once on the
+                    # same session -- itself a history the property speaks about -- and count it
+                    mp_obs.kill_stray_children()
+                    rec["timeouts_retried"] = rec.get("timeouts_retried", 0) + 1
+                    o = {"status": None, "items": [], "tables": None}
+                    REC.reset()
+                    sink.reset() if sink is not None else None
+                    uni.api_seen.clear()
+                    st, _v = mp_obs.watchdog(lambda: body(o=o), HANG_S)
                 if st != "ok":
                     o = dict(o, status="hang")        # the abandoned thread keeps its own dict
             else:
@@ -548,6 +558,7 @@ def part_a(rep: vlib.Reporter, tier: str, rng: random.Random, modes: bool = Fals
         dist["histories_with_two_or_more_modes"] = sum(1 for r in recs if len({op["mode"] for op in r["ops"] if op["kind"] != "get"}) >= 2)
         dist["histories_with_multiprocessing"] = sum(1 for r in recs if any(op["mode"] == "MULTIPROCESSING" for op in r["ops"]))
         dist["process_start_method"] = mp_obs.start_method()
+        dist["multiprocessing_timeouts_not_reproduced_on_retry"] = sum(r.get("timeouts_retried", 0) for r in recs)
         dist["wall_s"] = round(time.time() - t0, 1)
         rep.add("session_histories_modes", dist)
         rep.add("session_model_modes", {**info, "disagreements": len(bad)})
